@@ -222,7 +222,8 @@ def brentsrootvec(f, bounds, tol=None, verbose=False, return_interval=False, acc
     if tol < D.epsilon(lower_bound.dtype):
         tol = D.epsilon(lower_bound.dtype)
     tol = D.ar_numpy.asarray(tol, like=lower_bound)
-    a, b = D.ar_numpy.asarray(lower_bound, like=tol), D.ar_numpy.asarray(upper_bound, like=tol)
+    # (working copies: the bracket ends are swapped and overwritten in place below)
+    a, b = D.ar_numpy.copy(D.ar_numpy.asarray(lower_bound, like=tol)), D.ar_numpy.copy(D.ar_numpy.asarray(upper_bound, like=tol))
     
     if isinstance(f, list):
         def _f(x, mask=None):
@@ -240,6 +241,13 @@ def brentsrootvec(f, bounds, tol=None, verbose=False, return_interval=False, acc
             if mask is None:
                 return f(x)
             return D.ar_numpy.where(mask, f(x), 0.0, like=x)
+
+    __f_as_given = _f
+
+    def _f(x, mask=None):
+        # the function values are kept in arrays of the solver's own, typed like the bracket: a function may hand back its
+        # argument (f(x) = x) or plain ints, and the values are swapped and overwritten in place below
+        return D.ar_numpy.copy(D.ar_numpy.astype(D.ar_numpy.asarray(__f_as_given(x, mask)), a.dtype))
 
     if verbose:
         print(_f(a))
